@@ -6,6 +6,8 @@ import TlsProofs.Crypto.CcmTop
 import TlsProofs.Crypto.AesTables
 import TlsProofs.Crypto.AesEnc
 import TlsProofs.Crypto.AesFull
+import TlsProofs.Crypto.AesDecFull
+import TlsProofs.Crypto.AesInverse
 /-
   C09 — symmetric primitives and key derivation compute the standardised functions.
 
@@ -644,11 +646,11 @@ theorem ccm_open_some_iff (E : Bytes → Bytes) (hE : ∀ b, (E b).length = 16) 
       · intro h; rw [h.2.1] at h; exact absurd h.2.2 ht
 
 /-! ## AES core (tlslite/utils/rijndael.py): the GENERATED tables against FIPS-197
-   These are statements over the whole literal tables, re-generated from the source and re-checked on
-   every run.  NOT proved: that the table-driven rounds and key schedule (`Aes.Model`, an executable
-   transliteration) equal the FIPS-197 Cipher / InvCipher / KeyExpansion (`Aes.Spec`) for all keys and
-   blocks — that equality, like single DES, is tied by correspondence only (driver ops `aes_model`,
-   `aes_spec` against the implementation, FIPS-197 appendix C and an independent Python FIPS-197). -/
+   Table statements are over the whole literal tables, re-generated from the source and re-checked on
+   every run.  On top of them: the key-schedule loops = KeyExpansion, encrypt = Cipher, decrypt = InvCipher
+   (through the equivalent inverse cipher of §5.3.5) and decrypt ∘ encrypt = id, for every key of 16, 24,
+   32 bytes and every block (`Aes.Model` = executable transliteration of rijndael.py, `Aes.Spec` = FIPS-197).
+   The model itself is tied to the implementation by correspondence (driver ops `aes_model`, `aes_spec`). -/
 
 /-- `S` is the FIPS-197 S-box: inverse in GF(2^8) followed by the affine transformation (all 256 entries) -/
 theorem aes_sbox_table : Aes.Gen.S.toList = (List.range 256).map Aes.Spec.sboxN := Aes.S_table
@@ -722,6 +724,56 @@ theorem aes_encrypt_eq_spec (key block : Bytes) (hk : key.length = 16 ∨ key.le
 
 example : (Aes.Model.init (zeros 16) >>= fun k => Aes.Model.encrypt k (zeros 16)) =
     .ok (Aes.Spec.cipher (zeros 16) (zeros 16)) := aes_encrypt_eq_spec _ _ (Or.inl rfl) rfl
+
+/-- `S`-inverse table computed directly: `Si` = inverse affine map then the GF(2^8) inverse (§5.3.2) -/
+theorem aes_inv_sbox_spec_table : Aes.Gen.Si.toList = (List.range 256).map Aes.Spec.invSboxN := Aes.Si_spec_table
+
+/-- the table-driven decryption (T5..T8 rounds with shift offsets 3 2 1, last round with `Si`) on ANY
+    decryption key schedule is the equivalent inverse cipher of FIPS-197 §5.3.5 with those round keys -/
+theorem aes_decrypt_rounds_eq_spec (K : List Nat) (hK : ∀ w ∈ K, w < 2 ^ 32) (rounds : Nat)
+    (hr : 1 ≤ rounds) (hlen : K.length = 4 * (rounds + 1)) (block : Bytes) (hb : block.length = 16) :
+    Aes.Model.crypt K rounds Aes.Gen.T5 Aes.Gen.T6 Aes.Gen.T7 Aes.Gen.T8 Aes.Gen.Si Aes.Gen.shiftsDec block =
+      .ok (Aes.Spec.eqInvCipherRK (Aes.rkBytes K) rounds block) :=
+  Aes.crypt_dec_spec K hK rounds hr hlen block hb
+
+/-- FIPS-197 §5.3.5: InvCipher equals the equivalent inverse cipher under the modified key schedule
+    (InvMixColumns is linear over xor; InvSubBytes and InvShiftRows commute) -/
+theorem aes_inv_cipher_eq_equivalent (rk : Nat → Aes.Spec.State) (nr : Nat)
+    (hrk : ∀ r, r ≤ nr → (rk r).length = 16) (inp : Bytes) (hi : inp.length = 16) :
+    Aes.Spec.invCipherRK rk nr inp = Aes.Spec.eqInvCipherRK (Aes.Spec.dkOf rk nr) nr inp :=
+  Aes.invCipher_eq_eqInv rk nr hrk inp hi
+
+/-- the decryption key schedule built in `__init__` (`Kd[ROUNDS − r] = Ke[r]`, then U1..U4 on rounds
+    1 .. ROUNDS−1) is that modified schedule of the KeyExpansion words -/
+theorem aes_decrypt_key_schedule_eq_spec (w : List (List UInt8)) (hw : ∀ x ∈ w, x.length = 4) (R : Nat)
+    (hlen : w.length = 4 * (R + 1)) :
+    Aes.Model.mkKd (w.map Aes.wd) R = .ok ((Aes.kdWords w R).map Aes.wd) ∧
+    ∀ r, r ≤ R → Aes.Spec.roundKey (Aes.kdWords w R) r = Aes.Spec.dkOf (Aes.Spec.roundKey w) R r :=
+  ⟨Aes.mkKd_spec w hw R, fun r hr => Aes.kd_roundKey w hw R r hr hlen⟩
+
+/-- FULL: `Rijndael(key, 16).decrypt(block)` = InvCipher(KeyExpansion(key), block) of FIPS-197 for every
+    key of 16, 24, 32 bytes and every 16-byte block -/
+theorem aes_decrypt_eq_spec (key block : Bytes) (hk : key.length = 16 ∨ key.length = 24 ∨ key.length = 32)
+    (hb : block.length = 16) :
+    (Aes.Model.init key >>= fun k => Aes.Model.decrypt k block) = .ok (Aes.Spec.invCipher key block) :=
+  Aes.decrypt_spec key block hk hb
+
+example : (Aes.Model.init (zeros 32) >>= fun k => Aes.Model.decrypt k (zeros 16)) =
+    .ok (Aes.Spec.invCipher (zeros 32) (zeros 16)) := aes_decrypt_eq_spec _ _ (Or.inr (Or.inr rfl)) rfl
+
+/-- FIPS-197 InvCipher inverts Cipher under KeyExpansion (InvSubBytes∘SubBytes, InvShiftRows∘ShiftRows,
+    InvMixColumns∘MixColumns — the latter from the 16 products of the two coefficient matrices checked for
+    every byte — and AddRoundKey twice are identities) -/
+theorem aes_spec_decrypt_encrypt (key block : Bytes) (hk : key.length = 16 ∨ key.length = 24 ∨ key.length = 32)
+    (hb : block.length = 16) : Aes.Spec.invCipher key (Aes.Spec.cipher key block) = block :=
+  Aes.invCipher_cipher key block hk hb
+
+/-- one `Rijndael` object: `decrypt(encrypt(block)) = block` — the `D (E b) = b` hypothesis of the
+    mode theorems above is discharged for tlslite's own AES -/
+theorem aes_decrypt_encrypt (key block : Bytes) (hk : key.length = 16 ∨ key.length = 24 ∨ key.length = 32)
+    (hb : block.length = 16) :
+    (Aes.Model.init key >>= fun k => Aes.Model.encrypt k block >>= fun c => Aes.Model.decrypt k c) = .ok block :=
+  Aes.model_decrypt_encrypt key block hk hb
 
 /-- wrong key or block lengths raise ValueError -/
 theorem aes_guards (key block : Bytes) :
